@@ -1,0 +1,18 @@
+//go:build verif
+
+package arbitrators
+
+// Contracts for gvc (see /verif/DESIGN.md). Comment-only: this file adds no code to any build.
+
+// The analysis sources of a facade are files the configured globs matched - whatever else has been registered
+// since (packages loaded on demand register their files for file-to-package lookups). This is the function-level
+// form of "only files matched by controllerGlobs contribute controllers" (C20) and of "a later analysis pass on the
+// same session walks the same files" (C19); the order is the file-name order (C13).
+//@ func PackagesFacade.GetAllSourceFiles props C19,C20,C13,C14
+//@ requires facade != nil
+//@ ensures globbedOnly: forall(i, 0, len(result), exists(n, string, indom(facade.globbedFiles, n) && result[i] == facade.files[n]))
+//@ ensures registered: forall(i, 0, len(result), result[i] != nil)
+//@ loop 0 invariant fresh(fileNames) && forall(k, 0, len(fileNames), indom(facade.globbedFiles, fileNames[k]) && facade.files[fileNames[k]] != nil)
+//@ loop 1 invariant 0 <= _n && _n <= len(fileNames) && len(result) == _n && fresh(result)
+//@ loop 1 invariant forall(k, 0, len(fileNames), indom(facade.globbedFiles, fileNames[k]) && facade.files[fileNames[k]] != nil)
+//@ loop 1 invariant forall(k, 0, _n, result[k] != nil && exists(n, string, indom(facade.globbedFiles, n) && result[k] == facade.files[n]))
